@@ -11,8 +11,8 @@
 #include <sched.h>
 
 #define MAXU 48
-enum { OP_YIELD, OP_CHILD, OP_SUSPEND, OP_MIGRATE, OP_EXIT, OP_STATE, OP_CREATE_TO, OP_YIELD_TO, OP_RESUME_YIELD_TO, OP_NOPS };
-static const char *OPN_[] = { "yield", "child", "suspend", "migrate", "exit", "state", "create_to", "yield_to", "resume_yield_to" };
+enum { OP_YIELD, OP_CHILD, OP_SUSPEND, OP_MIGRATE, OP_EXIT, OP_STATE, OP_CREATE_TO, OP_YIELD_TO, OP_RESUME_YIELD_TO, OP_SWITCH, OP_NOPS };
+static const char *OPN_[] = { "yield", "child", "suspend", "migrate", "exit", "state", "create_to", "yield_to", "resume_yield_to", "switch" };
 
 typedef struct unit {
     int id, kind, named, pool, parent; /* kind: AK_ULT / AK_TASK */
@@ -298,6 +298,72 @@ static void unit_fn(void *arg)
                     VSA_CHECK(U[c].started == 1, "directed switch from U%d: the target U%d had not run when the caller resumed", u->id, c);
                 if (U[c].named)
                     children[nch++] = c;
+                break;
+            }
+            case OP_SWITCH: {
+                /* the 2.0-style directed switches: the caller pops a ready ULT of its own pool (or claims a suspended
+                 * one) and hands the stream to it, itself going back to its pool / blocking / terminating */
+                int rank = -1;
+                ABT_OK(ABT_xstream_self_rank(&rank));
+                int last = (i == u->nsteps - 1 && nch == 0);
+                int how = sc_rnd(5); /* 0 yield_to 1 suspend_to 2 exit_to 3 resume_suspend_to 4 resume_exit_to */
+                if ((how == 1 || how == 3) && !u->named)
+                    how = 0;
+                if ((how == 2 || how == 4) && !last)
+                    how = (how == 2) ? 0 : (u->named ? 3 : 0);
+                ABT_thread tgt = ABT_THREAD_NULL;
+                int tid_ = -1;
+                if (how >= 3) {
+                    for (int k = 0; k < nunits; k++)
+                        if (k != u->id && claim_resume(&U[k])) {
+                            tid_ = k;
+                            tgt = U[k].th;
+                            break;
+                        }
+                } else if (rank == u->pool) {
+                    ABT_OK(ABT_pool_pop_thread(sc_pool[u->pool], &tgt));
+                    if (tgt != ABT_THREAD_NULL) {
+                        void *targ = NULL;
+                        ABT_OK(ABT_thread_get_arg(tgt, &targ));
+                        unit *t = (unit *)targ;
+                        if (t < U || t >= U + MAXU || t->kind != AK_ULT) {
+                            /* a tasklet or the primary ULT: put it back */
+                            ABT_OK(ABT_pool_push_thread(sc_pool[u->pool], tgt));
+                            tgt = ABT_THREAD_NULL;
+                        } else {
+                            tid_ = t->id;
+                        }
+                    }
+                }
+                if (tgt == ABT_THREAD_NULL) {
+                    u->in_run = 0;
+                    ABT_OK(ABT_thread_yield());
+                    u->in_run = 1;
+                    break;
+                }
+                static const char *HOWN[] = { "self_yield_to", "suspend_to", "exit_to", "resume_suspend_to", "resume_exit_to" };
+                vs_log("apiCall %s U%d", HOWN[how], tid_);
+                if (how == 1 || how == 3)
+                    u->want_resume++;
+                if (how == 2 || how == 4) {
+                    u->exited = 1;
+                    vs_note("userEnd U%d", u->id);
+                    u->counted_out = 1;
+                    __sync_fetch_and_sub(&live_workers, 1);
+                }
+                u->in_run = 0;
+                switch (how) {
+                    case 0: ABT_OK(ABT_self_yield_to(tgt)); break;
+                    case 1: ABT_OK(ABT_self_suspend_to(tgt)); break;
+                    case 2: ABT_self_exit_to(tgt); vs_fail("ABT_self_exit_to returned in U%d", u->id); break;
+                    case 3: ABT_OK(ABT_self_resume_suspend_to(tgt)); break;
+                    case 4: ABT_self_resume_exit_to(tgt); vs_fail("ABT_self_resume_exit_to returned in U%d", u->id); break;
+                }
+                VSA_CHECK(u->in_run == 0, "unit U%d resumed on two streams at once", u->id);
+                u->in_run = 1;
+                if (how == 1 || how == 3)
+                    VSA_CHECK(u->resumed_cnt == u->want_resume, "U%d runs after %s %d but was resumed %d times", u->id, HOWN[how],
+                              u->want_resume, u->resumed_cnt);
                 break;
             }
             case OP_RESUME_YIELD_TO: {
